@@ -1,3 +1,4 @@
+pub mod lpread;
 pub mod rat;
 pub mod refparse;
 pub mod sem;
